@@ -288,10 +288,10 @@ func stdConfigs() map[string]*Cfg {
 		"uf":  {Dir: sp("@/snaps"), Update: bp(false)},
 		"e":   {Dir: sp("@/snaps"), Filename: sp("ext"), Ext: sp(".txt")},
 		"d2":  {Dir: sp("@/other/deep")},
-		"fn":  {Filename: sp("custom")},      // default directory, custom file name
-		"nc":  {Dir: sp("@/./snaps//")},      // a Dir that is not in cleaned form
-		"gl":  {Dir: sp("@/proj[v2]/sn*ps")}, // glob metacharacters in the path
-		"bad": {Dir: sp("@/blocker/snaps")},  // "blocker" is a regular file: nothing can be created below it
+		"fn":  {Filename: sp("custom")},                    // default directory, custom file name
+		"nc":  {Dir: sp("@/./snaps//")},                    // a Dir that is not in cleaned form
+		"gl":  {Dir: sp("@/proj[v2]/sn*ps")},               // glob metacharacters in the path
+		"bad": {Dir: sp("@/blocker/snaps")},                // "blocker" is a regular file: nothing can be created below it
 		"isd": {Dir: sp("@/snaps"), Filename: sp("isdir")}, // snaps/isdir.snap is a DIRECTORY: the directory exists, opening the file fails
 	}
 }
